@@ -81,3 +81,8 @@ impl<'a> Ent<'a> {
         self.bytes(n)
     }
 }
+
+pub mod labels;
+pub mod types;
+pub mod values;
+pub mod upgrade;
